@@ -132,6 +132,25 @@ def initSt (p : Params) (m : Mode) (first : Nat) : St :=
     divsRemain := if p.enforce then n - 1 else 0,
     divisions := [first], locations := [0] }
 
+/-- did this iteration take the `enforce_exact` step-back (`ind -= divs_remain - offs_remain; i = offsets[ind]`)?
+    (measurement only: lets the harness report how often the generator reaches that branch) -/
+def isBack (p : Params) (s : St) : Bool :=
+  match p.seq[s.i]? with
+  | some d0 => (match candidate p s d0 with
+    | some (i, _, _, _) => i != s.i
+    | none => false)
+  | none => false
+
+/-- `(iterations, step-backs)` of the loop -/
+def loopStats (p : Params) : Nat → St → Nat × Nat → Option (Nat × Nat)
+  | 0, _, _ => none
+  | fuel + 1, s, c =>
+    if s.i < p.seq.length then
+      match step p s with
+      | some s' => loopStats p fuel s' (c.1 + 1, c.2 + (if isBack p s then 1 else 0))
+      | none => none
+    else some c
+
 /-- fuel handed to the loop by `sdl` -/
 def sdlFuel (seq : List Nat) : Nat := 2 * seq.length + 4
 
@@ -144,5 +163,12 @@ def sdl (seq : List Nat) (m : Mode) : Option (List Nat × List Nat) := do
   let p := mkParams seq m
   let s ← loop p (sdlFuel seq) (initSt p m first)
   pure ((last :: s.divisions).reverse, (seq.length :: s.locations).reverse)
+
+/-- `(iterations, step-backs, appended boundaries)` of a run (measurement for the harness) -/
+def sdlStats (seq : List Nat) (m : Mode) : Option (Nat × Nat) := do
+  let first ← seq.head?
+  guardMode m
+  let p := mkParams seq m
+  loopStats p (sdlFuel seq) (initSt p m first) (0, 0)
 
 end Dask.SDL
